@@ -41,7 +41,7 @@ CLAIMED = {
    note=TB + AX + "(J/C/D totality). filter_tables empty-pair clause at API level: by correspondence + empty_spec (theorem pending, see DESIGN.md).",
    technique="Coq proof (API-level refinement) ; in-Coq evaluation of specs on implementation output"),
  'C11': dict(ref='6 C11',
-   text="Coq theorems about the projection pipeline composed from the helper functions GENERATED from utils/generic_helper.py (remove_redundant_attrs, get_attrs_to_project, find_output_attribute_indices, get_output_header_from_tables, get_output_row_from_tables): header = documented columns; every projected cell = cell of that attribute in the source row, on the main path and the missing-value path, for None / [] / lists with key, join attribute and repeats. Tie: regenerated each run; header_ok / cells_ok and the generated pipeline evaluated inside Coq on observed frames. The public wrappers jaccard/cosine/dice_join_py are REGENERATED from the source (Gen/WrapperGen.v over the frame model Model/Frame.v) and proved end to end (dropna, projection, split_table, per-chunk loop, concat, missing-value pairs, _id) to produce header_spec + the rows of api_join through the declared projection (generated_*_wrapper_refines_model).",
+   text="Coq theorems about the projection pipeline composed from the helper functions GENERATED from utils/generic_helper.py (remove_redundant_attrs, get_attrs_to_project, find_output_attribute_indices, get_output_header_from_tables, get_output_row_from_tables): header = documented columns; every projected cell = cell of that attribute in the source row, on the main path and the missing-value path, for None / [] / lists with key, join attribute and repeats. Tie: regenerated each run; header_ok / cells_ok and the generated pipeline evaluated inside Coq on observed frames. The public wrappers jaccard/cosine/dice_join_py are REGENERATED from the source (Gen/WrapperGen.v over the frame model Model/Frame.v) and proved end to end (dropna, projection, split_table, per-chunk loop, concat, missing-value pairs, _id) to produce header_spec + the rows of api_join through the declared projection (generated_*_wrapper_refines_model). CODE-LEVEL: C11_code_* -- for the ten regenerated wrappers (six joins, four filter_tables) the returned frame has header_spec (spelled out) and every row reads, position by position, the cells of one left and one right source row (keys, every requested attribute at its header position, score last), for normal, empty-set-branch and missing-value rows; with unique keys these are the rows identified by the row's keys.",
    note=TB + "Closed under the global context. pandas' own projection df[cols] / dropna / DataFrame(rows, columns) are modelled (first column of a name).",
    technique="Coq proof over translated helper functions; in-Coq evaluation of model and spec on implementation output"),
  'C12': dict(ref='6 C12',
